@@ -5,6 +5,11 @@ import os
 VERIF = os.path.dirname(os.path.dirname(os.path.abspath(__file__)))
 
 CHECKS = {
+    "C16": dict(
+        text="Theorems (Coq, by induction on the syntax of the shipped lattice types: all nestings, tuple/Product arities >= 1, array lengths, integer ranges, bounds, Ord element types): partial_cmp is a partial order, join = least upper bound, meet = greatest lower bound, hence commutative / associative / idempotent / absorbing and a <= b iff join = b iff meet = a; join_mut / meet_mut equal join / meet and the changed flag is exact; Dual and Reverse swap the operations; top / bottom extremal. The Gallina mirror of every impl is tied to ascent_base by differential runs on 73 concrete Rust types (exhaustive pairs / triples over small carriers) — that half is testing.",
+        note="Trusted: Coq kernel + VM; the hand-written mirror Lattice/LatModel.v (tied, not verified); ds_lat and gen/props/c16.py renderers / law oracle; Rust std (BTreeSet, derived Option / tuple orders, Ord::min / max, Rc / Arc glue); integers as Z restricted to a range.",
+        technique="Coq proof by induction over lattice-type syntax + model/impl correspondence (ds_lat)",
+        ref="5/C16"),
     "C17": dict(
         text="Theorems (Coq, all finite inputs, all p, all legal size hints): each aggregator of the model equals its list specification, is permutation invariant and percentile never panics; the model is tied to ascent/src/aggregators.rs by running both on the same inputs (exhaustive small lists + random long ones, 4 iterator shapes) — that half is differential testing.",
         note="Trusted: Coq kernel + VM; hand-written Gallina mirror of aggregators.rs (tied by correspondence runs, not verified); values as unbounded Z (sum overflow outside the statement); f64 arithmetic exact on the inputs used; Iterator::size_hint contract.",
